@@ -47,7 +47,7 @@ P0 == [t |-> "NONE", dup |-> FALSE, qos |-> 0, retain |-> FALSE, tit |-> 0, tid 
        sname |-> "", swild |-> FALSE, data |-> "", will |-> FALSE, clean |-> FALSE, cid |-> "",
        method |-> "", plain |-> FALSE, plainok |-> FALSE, user |-> "", pass |-> "", empty |-> FALSE]
 M0 == [t |-> "NONE", dup |-> FALSE, qos |-> 0, retain |-> FALSE, topic |-> "", wild |-> FALSE,
-       short |-> FALSE, sid |-> 0, mid |-> 0, pl |-> "s:", plen |-> 0, rc |-> 0, codes |-> <<>>, rqos |-> 0]
+       short |-> FALSE, sid |-> 0, mid |-> 0, pl |-> "s:", plen |-> 0, tlen |-> 3, rc |-> 0, codes |-> <<>>, rqos |-> 0]
 EvC(p) == [t |-> "C", p |-> p, m |-> M0, n |-> 0]
 EvB(m) == [t |-> "B", p |-> P0, m |-> m, n |-> 0]
 EvT(t, n) == [t |-> t, p |-> P0, m |-> M0, n |-> n]
